@@ -376,17 +376,20 @@ def t_level1(task, ctx: Ctx):
     # chains of attribute maps (the same map repeated too: a swap applied twice is the identity), on one wrapper and on nested wrappers
     for n in (2, 3):
         for seq in itertools.product(range(len(ATTR_MAPS)), repeat=n):
-            for nested in (False, True):
+            for nested, shared in ((False, False), (True, False), (False, True), (True, True)):
                 ctx.count("evaluations")
-                hist = ("attr-chain", seq, nested, ("leaf", name))
+                hist = ("attr-chain", seq, nested, ("leaf", name)) + (("shared-dicts",) if shared else ())
                 try:
                     cc = CompositeCanvas(v.canv)
                     g = v.g
+                    own = [dict(m) for m in ATTR_MAPS]  # shared: the very same dictionary object is handed over each time
                     for i in seq:
                         if nested:
                             cc = CompositeCanvas(cc)
-                        cc.fill_attr_apply(dict(ATTR_MAPS[i]))
+                        cc.fill_attr_apply(own[i] if shared else dict(ATTR_MAPS[i]))
                         g = g.attr_map(ATTR_MAPS[i])
+                    if shared and own != [dict(m) for m in ATTR_MAPS]:
+                        ctx.violation("operands-unchanged", "C02/operands-unchanged/attr-mapping", {"expr": hist}, f"fill_attr_apply changed the caller's mapping: {own}")
                     got = G.grid_of_content(cc.content())
                 except Exception as e:
                     ctx.violation("no-raise", f"C02/op-raises/attr-chain/{exc_site(e)}", {"expr": hist}, repr(e))
@@ -741,6 +744,9 @@ def replay(case, ctx):
             return tuple(tup(i) for i in x) if isinstance(x, (list, tuple)) else x
 
         hist = tup(case["expr"])
+        if hist and hist[0] == "attr-chain":
+            t_level1(("l1", hist[3][1]), ctx)
+            return
         v = build(hist)
         print("model grid:", v.g.rows, v.g.coords)
         print("canvas    :", G.grid_of_content(v.canv.content()), {k: c[:2] for k, c in v.canv.coords.items()})
